@@ -313,9 +313,33 @@ package updown
 //@   ensures [cap] len(sent(cOut)[0].same.catchment) + len(sent(cOut)[0].up.catchment) + len(sent(cOut)[0].down.catchment) + len(sent(cOut)[0].side.catchment) <= ite(sizeArray[0] == 2147483647 || sizeArray[1] == 2147483647 || sizeArray[2] == 2147483647 || sizeArray[3] == 2147483647, 2147483647, sizeArray[0] + sizeArray[1] + sizeArray[2] + sizeArray[3])
 
 //@ # C18: validation prefixes of the entry points
-//@ func List prefix
+//@ func List spawns
 //@   modifies everything
 //@   after if#2: assert [c18.oneref] len(temp) == 1
+//@   # the stage-completion loops (spawns mode, see closest.Closest): an error received from any stage is returned; a nil
+//@   # return means none was received and the reader, the workers and the writer all signalled completion
+//@   after assign:cWriteDone#1: assume [env.errors] forallint(k, envat(cErr, k) != nil)
+//@   ghost gErrSeen bool = false
+//@   before call:writeOutput#1: assert [c10.writer] arg(0) == out && arg(1) == cudLs && arg(2) == cErr && arg(3) == cWriteDone
+//@   before call:ReadEncodeAlignment#1: assert [c10.reader] arg(0) == alignment && arg(1) == false && arg(2) == cFR && arg(3) == cErr && arg(4) == cFRDone
+//@   loop 1:
+//@     invariant !gErrSeen && len(recvd(cErr)) == 0 && len(recvd(cFRDone)) == 0 && len(recvd(cudLsDone)) == 0 && len(recvd(cWriteDone)) == 0
+//@   loop 2:
+//@     invariant !gErrSeen && len(recvd(cErr)) == 0 && len(recvd(cFRDone)) == 0 && len(recvd(cudLsDone)) == 0 && len(recvd(cWriteDone)) == 0
+//@   loop 3:
+//@     invariant !gErrSeen && len(recvd(cErr)) == 0 && 0 <= n && n <= 1 && len(recvd(cFRDone)) + n == 1 && len(recvd(cudLsDone)) == 0 && len(recvd(cWriteDone)) == 0
+//@   loop 4:
+//@     invariant !gErrSeen && len(recvd(cErr)) == 0 && len(recvd(cFRDone)) == 1 && 0 <= n && n <= 1 && len(recvd(cudLsDone)) + n == 1 && len(recvd(cWriteDone)) == 0
+//@   loop 5:
+//@     invariant !gErrSeen && len(recvd(cErr)) == 0 && len(recvd(cFRDone)) == 1 && len(recvd(cudLsDone)) == 1 && 0 <= n && n <= 1 && len(recvd(cWriteDone)) + n == 1
+//@   before return#3: do gErrSeen = true
+//@   before return#4: do gErrSeen = true
+//@   before return#5: do gErrSeen = true
+//@   before return#3: assert [c18.error.first] len(recvd(cErr)) == 1 && err == recvd(cErr)[0]
+//@   before return#4: assert [c18.error.first] len(recvd(cErr)) == 1 && err == recvd(cErr)[0]
+//@   before return#5: assert [c18.error.first] len(recvd(cErr)) == 1 && err == recvd(cErr)[0]
+//@   before return#6: assert [c18.nil.means.clean] len(recvd(cErr)) == 0 && len(recvd(cFRDone)) == 1 && len(recvd(cudLsDone)) == 1 && len(recvd(cWriteDone)) == 1
+//@   ensures [c18.error.returned] implies(gErrSeen, result != nil)
 //@ # the whole orchestration of `updown topranking` in spawns mode (see closest.Closest for the model and for what the two
 //@ # `assume` clauses stand on: findUpDownCatchment[PushDistance]'s post-condition sent(cOut)[0].qidx == q.idx with exactly
 //@ # one send, the query readers' idx post-conditions and the worker wiring proved in splitInput). Proved: the validated
